@@ -88,7 +88,8 @@ pub fn run(args: &Args) {
         }
         let mut grng = rng.fork();
         cfg.builtin_named_rules = gi % 5 == 4;
-        let rules = gen_grammar(&mut grng, &cfg);
+        let gcfg = cfg.vary(&mut grng);
+        let rules = gen_grammar(&mut grng, &gcfg);
         let text = vmon::print::rules_to_string(&rules);
         rep.count("grammars_generated");
         let (ast, optimized) = match read_grammar(&text) {
